@@ -4123,22 +4123,31 @@ local Bool
 scoUndoStabEntry(StabEntry stent)
 {
 	SymeList	osymes, nsymes;
-	Length		oldLength;
+	Length		i, oldLength;
 
 	if (!stent) return false;
 
-	osymes = stent->symev[0];
-	oldLength = listLength(Syme)(osymes);
+	/*
+	 * Every slot: the lists cached per condition (slots 1 and up)
+	 * and the pending list hold the new meanings too.
+	 */
+	for (i = 0; i < stent->argc; i += 1) {
+		osymes = stent->symev[i];
+		oldLength = listLength(Syme)(osymes);
 
-	nsymes = listFreeIfSat(Syme)(osymes, scoUndoSyme, isNewSyme);
-	stent->symev[0] = nsymes;
+		nsymes = listFreeIfSat(Syme)(osymes, scoUndoSyme, isNewSyme);
+		stent->symev[i] = nsymes;
 
-	if (listLength(Syme)(nsymes) != oldLength) {
-		tpossFree(stent->possv[0]);
-		stent->possv[0] = NULL;
+		if (listLength(Syme)(nsymes) != oldLength &&
+		    stent->possv[i] != NULL) {
+			tpossFree(stent->possv[i]);
+			stent->possv[i] = NULL;
+		}
 	}
+	stent->pending = listFreeIfSat(Syme)(stent->pending, scoUndoSyme,
+					     isNewSyme);
 
-	return (nsymes == listNil(Syme));
+	return (stent->symev[0] == listNil(Syme));
 }
 
 local void
